@@ -19,6 +19,27 @@ history the real objects are compared with what the graph predicts:
   exception on the notification exception channels; weak-reference callbacks
   raise nothing (sys.unraisablehook) and a dropped partner really dies.
 
+Mechanism keys (structural; first failing sub-check of a step decides):
+  runaway-propagation/<op>            more than BUDGET notifications for one operation
+  recursion/{raised,exception-channel}/<op>
+  <ctx>/raised/<Exc>                  ctx = gc-partner | unlinked | no-outgoing (operated node has
+  linked/<op>/raised/<Exc>            no outgoing link and lost its last one that way) or linked
+  <op>/source-value-wrong             operated attribute does not hold what was written
+  <ctx>/still-propagates/<op>         a node without outgoing link changed somebody else
+  one-way/reverse-propagation/<op>    a one-way target changed its source
+  linked/unrelated-node-changed/<op>
+  multipath/list-mutation/{diverged,double-notified}   list nodes linked along redundant paths
+  list-mutation/extended-slice/diverged                (F14)
+  gc-partner/lost-update-after-resync (F10) the lagging node once lost a partner to collection
+  <op>/diverged, <op>/mutual-class-unequal, link/not-equalised, link/value-from-nowhere
+  <ctx>/exception-channel/<Exc>       traits' own handler of a node that has nothing to forward
+                                      raised (F10: gc-partner/.../KeyError; on an extended-slice
+                                      mutation the same stale handler trips over F14 first:
+                                      gc-partner/.../TypeError); unlink|drop/exception-channel/<Exc>
+  ping-pong/<op>, spurious-notification/<op>, <op>/unraisable/<Exc>, drop/partner-kept-alive
+<op> = assign | assign-list | list-mutation/{item,simple-slice,reversed-slice,extended-slice,bulk}
+       | link | link-oneway | unlink | drop.
+
 See DESIGN.md section 4 / C20.
 """
 import gc
@@ -49,18 +70,22 @@ META = {
              "propagated, was raised or arrived on an exception channel."),
     "phases": [{"name": "main", "flavour": "P", "shards": 16}],
     "gates": {
-        "quick": {"evaluations": 15000, "propagations_checked": 6000, "mutual_list_mutations": 1500,
-                  "oneway_assignments": 300, "reverse_direction_checks": 300,
-                  "ops_after_unlink": 300, "ops_after_partner_gc": 100, "relinks": 100,
-                  "partners_collected": 100, "three_object_propagations": 500,
-                  "alias_propagations": 500, "recorder_calls_checked": 10000,
-                  "noop_steps": 1000},
-        "thorough": {"evaluations": 400000, "propagations_checked": 150000,
-                     "mutual_list_mutations": 40000, "oneway_assignments": 8000,
-                     "reverse_direction_checks": 8000, "ops_after_unlink": 8000,
-                     "ops_after_partner_gc": 2500, "relinks": 2500, "partners_collected": 2500,
-                     "three_object_propagations": 12000, "alias_propagations": 12000,
-                     "recorder_calls_checked": 250000, "noop_steps": 25000},
+        "quick": {"evaluations": 130000, "propagations_checked": 27000,
+                  "mutual_list_mutations": 10000, "oneway_assignments": 2200,
+                  "reverse_direction_checks": 5500, "ops_after_unlink": 6500,
+                  "ops_after_partner_gc": 1400, "relinks": 2000, "partners_collected": 1900,
+                  "three_object_propagations": 2300, "alias_propagations": 5400,
+                  "recorder_calls_checked": 110000, "noop_steps": 30000,
+                  "extended_slice_mutations": 600, "links_made": 24000,
+                  "unlinks_effective": 6500},
+        "thorough": {"evaluations": 1900000, "propagations_checked": 400000,
+                     "mutual_list_mutations": 150000, "oneway_assignments": 34000,
+                     "reverse_direction_checks": 88000, "ops_after_unlink": 100000,
+                     "ops_after_partner_gc": 22000, "relinks": 33000, "partners_collected": 28000,
+                     "three_object_propagations": 37000, "alias_propagations": 84000,
+                     "recorder_calls_checked": 1600000, "noop_steps": 450000,
+                     "extended_slice_mutations": 9000, "links_made": 330000,
+                     "unlinks_effective": 96000},
     },
     "assumptions": [
         "the model (directed link graph + value semantics of assignment, slice semantics of a "
@@ -131,9 +156,39 @@ def _unraisable(info):
     UNRAISABLE.append(getattr(info.exc_type, "__name__", "?"))
 
 
+# Step budget.  traits' forwarders swallow every exception (bare `except:`), so a
+# runaway propagation cannot be aborted by raising from a handler; once one operation
+# has produced more than BUDGET notifications the recorder clamps the interpreter's
+# recursion limit just above the current depth, which starves the runaway of stack
+# (it then unwinds in linear time) and the step is reported.
+BUDGET = 120
+STATE = {"clamped": False, "limit": sys.getrecursionlimit()}
+
+
+def _clamp():
+    f = sys._getframe()
+    d = 0
+    while f is not None:
+        d += 1
+        f = f.f_back
+    try:
+        sys.setrecursionlimit(d + 6)
+        STATE["clamped"] = True
+    except (RecursionError, ValueError):
+        pass
+
+
+def _unclamp():
+    if STATE["clamped"]:
+        sys.setrecursionlimit(STATE["limit"])
+        STATE["clamped"] = False
+
+
 def make_recorder(uid):
     def rec(obj, name, old, new):
         LOG.append((uid, _base(name)))
+        if len(LOG) > BUDGET:
+            _clamp()
     return rec
 
 
@@ -424,6 +479,12 @@ class World:
         recorder may have been called (at most once)."""
         ctx = self.ctx
         ctx.ev()
+        if STATE["clamped"] or len(LOG) > BUDGET:
+            n = len(LOG)
+            _unclamp()
+            self.fail("runaway-propagation/" + opclass,
+                      "one operation produced %d notifications (step budget %d): unbounded "
+                      "ping-pong between linked attributes" % (n, BUDGET))
         no_out = src is not None and self.outdeg(src) == 0
         multi = src is not None and opclass.startswith("list-mutation") and self.multipath(src)
         prefix = src_ctx if no_out else "linked/" + opclass
@@ -897,6 +958,7 @@ def run_history(ctx, h, stratum, lens, nops):
         while step < nops:
             op = script.pop(0) if script else gen_op(rng, w, step)
             w.trace.append(op)
+            _unclamp()
             del LOG[:], CHAN[:], UNRAISABLE[:]
             kind = op[0]
             if kind == "fresh":
@@ -908,6 +970,7 @@ def run_history(ctx, h, stratum, lens, nops):
     except Stop:
         ctx.count("histories_stopped_at_violation")
     finally:
+        _unclamp()
         trace = w.trace
         w.obj.clear()
         del LOG[:], CHAN[:], UNRAISABLE[:]
@@ -934,7 +997,7 @@ def run(ctx):
     sys.unraisablehook = _unraisable
     gc.collect()
     gc.freeze()
-    nh = ctx.scale(24000, 400000)
+    nh = ctx.scale(24000, 300000)
     nops = ctx.scale(24, 28)
     sampled = 0
     for h in range(nh):
